@@ -63,6 +63,10 @@ func init() {
 			return TV(vc.specApp(mf, []Val{a[0], TV(StrLit(" "))}, st)), st
 		},
 		"strings.Split": modelSplit,
+		"sort.Reverse": func(fr *Frame, a []Val, st *State, pos token.Pos) (Val, *State) {
+			fr.vc.assumptions["model:sort.Reverse as the identity (the reversed order is stated in the contract of sort.Sort@reverse:T)"] = true
+			return a[0], st
+		},
 		"regexp.MatchString": func(fr *Frame, a []Val, st *State, pos token.Pos) (Val, *State) {
 			vc := fr.vc
 			vc.assumptions["model:regexp.MatchString == (rx(pattern, s), rxerr(pattern)) uninterpreted"] = true
